@@ -640,7 +640,50 @@ def unit_hook(item):
     return p
 
 
+def unit_stepwise(item):
+    """Use site of the reward scaler in the step-wise PPO trainer: every step reward stored in the replay buffer must be
+    the stated transformation (None: x; int k: x/k; 'scale': x/(std+eps); 'norm': (x-mean)/(std+eps), running statistics
+    over ALL step rewards observed so far) of the raw reward the environment returned for that step.  The real
+    L2DPPOModel is driven for three consecutive batches (mc/stepwise.py)."""
+    import math
+
+    from ..stepwise import run_stepwise
+
+    _, env_name, scale, tier, seed = item
+    p = Partial()
+    try:
+        obs = run_stepwise(env_name, reward_scale=scale, rounds=3 if tier == "quick" else 5, seed=seed)
+    except Exception as e:  # noqa: BLE001
+        p.violation(dict(property=PID, env="stepwise_ppo", config=f"{env_name}|scale={scale}", observable=f"crash:{type(e).__name__}", trigger="training_round"), dict(kind="stepwise", env_name=env_name, scale=scale), f"StepwisePPO({env_name}, reward_scale={scale!r}): a training round raised {type(e).__name__}: {str(e)[:120]}")
+        return p
+    vals = []
+    for k, (raw, stored) in enumerate(obs["rewards"]):
+        x = raw.double().reshape(-1)
+        if scale is None:
+            want = x
+        elif isinstance(scale, int):
+            want = x / scale
+        else:
+            vals += x.tolist()
+            n = len(vals)
+            mean = sum(vals) / n
+            std = math.sqrt(sum((v - mean) ** 2 for v in vals) / (n - 1)) if n > 1 else float("nan")
+            eps = torch.finfo(torch.float32).eps
+            want = (x - mean) / (std + eps) if scale == "norm" else x / (std + eps)
+        p.add(states=1, transitions=1, evaluations=int(x.numel()), distinct_count=1)
+        got = stored.double().reshape(-1)
+        ok = got.shape == want.shape and bool(((got - want).abs() <= 1e-3 * (1 + want.abs())).logical_or(torch.isnan(want) & torch.isnan(got)).all())
+        p.outcome(f"stepwise|{scale}|{'ok' if ok else 'bad'}")
+        if not ok:
+            p.violation(dict(property=PID, env="stepwise_ppo", config=f"{env_name}|scale={scale}", observable="stored_reward", trigger="first_step" if k == 0 else "later_step"), dict(kind="stepwise", env_name=env_name, scale=scale, step=k), f"StepwisePPO({env_name}, reward_scale={scale!r}) step {k}: raw step rewards {x.tolist()} are stored as {got.tolist()}, stated transformation gives {want.tolist()}")
+            break
+    p.sample(dict(object="StepwisePPO reward scaling", env=env_name, reward_scale=str(scale), steps=len(obs["rewards"])), cap=1)
+    return p
+
+
 def dispatch(item):
+    if item[0] == "stepwise":
+        return unit_stepwise(item)
     return unit_hook(item) if item[0] == "hook" else unit(item)
 
 
@@ -720,7 +763,9 @@ def main(tier):
     seed = seed_from_env()
     items = build_items(tier, seed)
     hook_items = [("hook", tier, seed)] if not os.environ.get("VERIF_ONLY") or "hook" in os.environ.get("VERIF_ONLY") else []
-    rep.merge_all(pmap(dispatch, hook_items + items))
+    only_ = os.environ.get("VERIF_ONLY")
+    step_items = [("stepwise", e, sc, tier, seed) for e in (("fjsp",) if tier == "quick" else ("fjsp", "jssp")) for sc in (None, "scale", 5, "norm") if not only_ or "stepwise" in only_]
+    rep.merge_all(pmap(dispatch, hook_items + step_items + items))
     # every enumerated operation sequence is executed on a fresh REAL object (there is no separate model whose traces
     # would need replaying): all of them count as validated against the implementation
     rep.stats["traces_validated_against_impl"] = rep.stats.get("evaluations", 0)
@@ -730,6 +775,9 @@ def main(tier):
 
 
 def replay(rec):
+    if rec.get("kind") == "stepwise":
+        p = unit_stepwise(("stepwise", rec["env_name"], rec["scale"], "quick", 0))
+        return bool(p.violations), "; ".join(v["msg"] for v in p.violations[:2]) or "stored rewards are the stated transformation"
     if rec.get("kind") == "reinforce_hook":
         p = unit_hook(("hook", "thorough", 0))
         hit = [v for v in p.violations if v["replay"].get("n_epochs") == rec["n_epochs"] and v["replay"].get("first_fit") == rec["first_fit"] and v["replay"].get("continued") == rec["continued"]]
